@@ -268,3 +268,39 @@ func (g *Gen) LadderScenario(target string, maxSets int) []ClientOp {
 	}
 	return ops
 }
+
+// swarmExtras draws two further swarm dimensions (added in wave 5) AFTER everything else of a plan, so that the plans of
+// runs that do not draw them stay exactly what they were: persistent targets (the topo Configurable says the device keeps
+// its configuration: no re-synchronisation, state PERSISTED; such a device never restarts empty, so dev-restart faults
+// aimed at it are dropped) and failing onos-topo calls of the reconcilers (fail without effect / take effect with the
+// answer lost).
+func (g *Gen) swarmExtras(p *Plan, persistent, topo bool) {
+	if persistent && g.chance(1, 4) {
+		p.Knobs.Persistent = map[string]bool{}
+		for _, t := range p.Knobs.Targets {
+			if g.chance(1, 2) {
+				p.Knobs.Persistent[t] = true
+			}
+		}
+		if len(p.Knobs.Persistent) > 0 {
+			p.Profile += "+persistent"
+			var fs []Fault
+			for _, f := range p.Faults {
+				if f.Kind == "dev-restart" && p.Knobs.Persistent[f.Target] {
+					continue
+				}
+				fs = append(fs, f)
+			}
+			p.Faults = fs
+			if p.Knobs.Resync != nil && p.Knobs.Persistent[p.Knobs.Resync.Target] {
+				p.Knobs.Resync = nil
+			}
+		}
+	}
+	if topo && g.chance(1, 5) {
+		p.Profile += "+topo-faults"
+		for i := 0; i <= g.pick(3); i++ {
+			p.Faults = append(p.Faults, Fault{Kind: []string{"topo-unavail", "topo-acklost"}[g.pick(2)], On: "topo", N: 1 + g.pick(80), Burst: 1 + g.pick(3)})
+		}
+	}
+}
